@@ -79,6 +79,9 @@ def valid_answer(sc: dict, req: bytes, reg_shift: int = 0) -> bytes | None:
     if fr == "aa55":
         ctl, fn, pl = p["ctl"], p["fn"], p["payload"]
         rt = (ctl << 8) | (fn | 0x80)
+        if sc.get("aa55_len") is not None:
+            # AA55 answers announce their own payload length: any length 0..255 with the right checksum conforms
+            return F.aa55_answer(rt, bytes((i * 7 + 1 + reg_shift) & 0xFF for i in range(sc["aa55_len"])))
         if ctl == 1 and fn == 0x1A:  # read registers
             reg = int.from_bytes(pl[0:2], "big")
             return F.aa55_answer(rt, _read_payload(sc, reg, pl[2], reg_shift))
@@ -237,6 +240,25 @@ class Peer:
                 tr.send_error(exc, d2)
             else:
                 tr.peer_close(d2, exc)
+        elif k == "mut":
+            # the valid answer to this very request, mutated by one of the wire-level mutation classes (another size, function
+            # code, echoed field, response type, extra / missing bytes ... with checksums recomputed where the class says so),
+            # delivered whole or in two pieces.  What the bytes ARE is decided by the specification from the bytes.
+            import random as _random
+            from . import checks_wire as W
+            p = F.parse_request(sc["fr"], data) or {}
+            op = {3: "read", 6: "write", 16: "wmulti"}.get(p.get("fn"), "read") if sc["fr"] != "aa55" else "read"
+            cmd = {"fr": sc["fr"], "op": op, "addr": p.get("addr", 0xF7), "reg": p.get("reg", 0), "n": p.get("n", 0), "rt": -1,
+                   "payload": list(p.get("payload", b"")) if op == "wmulti" else []}
+            names = set(f.get("names") or ("resize", "fn", "fncrc", "field", "fieldcrc", "rtype", "ext", "lead"))
+            cands = [m for name, m in W.mutations(ans, _random.Random(f.get("seed", 1)), cmd, 0, False) if name in names and m]
+            frame = cands[f.get("i", 0) % len(cands)] if cands else GARBAGE
+            s_ = f.get("split", 0)
+            if 0 < s_ < len(frame):
+                tr.deliver(frame[:s_], d, "mut")
+                tr.deliver(frame[s_:], f.get("d2", d + 1), "mut")
+            else:
+                tr.deliver(frame, d, "mut")
         elif k in ("err", "serr"):
             err = f.get("err", _errno.ECONNREFUSED)
             exc = ConnectionRefusedError(err, "refused") if err == _errno.ECONNREFUSED else OSError(err, "os error")
